@@ -61,16 +61,19 @@ Definition bind {A B} (r : pres A) (k : A -> list token -> pres B) : pres B :=
 Definition is_kpunct (k : tkind) (c : Z) : bool :=
   match k with KPunct d => d =? c | _ => false end.
 
+(* The loops below accumulate tokens, lines, comments and statements in reversed lists
+   ([..._r], last element first) and reverse once at the end ([frev]). *)
+
 (* parseLine; the loop collects tokens up to the end of line *)
-Fixpoint line_loop (f : nat) (lend : lex_end) (start endp : position) (tokens : list str)
+Fixpoint line_loop (f : nat) (lend : lex_end) (start endp : position) (tokens_r : list str)
          (ts : list token) : pres line :=
   match f with
   | O => RFuel
   | S f' =>
       bind (advance lend ts) (fun tok ts1 =>
         if is_eol (t_kind tok) then
-          ROk (mkLine no_comments start tokens true endp) ts1
-        else line_loop f' lend start (t_end tok) (tokens ++ [t_text tok]) ts1)
+          ROk (mkLine no_comments start (frev tokens_r) true endp) ts1
+        else line_loop f' lend start (t_end tok) (t_text tok :: tokens_r) ts1)
   end.
 
 Definition parse_line (f : nat) (lend : lex_end) (ts : list token) : pres line :=
@@ -88,73 +91,74 @@ Definition set_after (c : comments) (a : list comment) : comments :=
 Definition line_set_before (l : line) (b : list comment) : line :=
   mkLine (set_before (l_comments l) b) (l_start l) (l_token l) (l_inblock l) (l_end l).
 
-Definition last_token_nonempty (cs : list comment) : bool :=
-  match rev cs with
-  | c :: _ => negb (match c_token c with [] => true | _ => false end)
+Definition is_nil {A} (l : list A) : bool := match l with [] => true | _ => false end.
+
+(* comments[len(comments)-1].Token != "" on the reversed list *)
+Definition last_token_nonempty (coms_r : list comment) : bool :=
+  match coms_r with
+  | c :: _ => negb (is_nil (c_token c))
   | [] => false
   end.
 
-Definition is_nil {A} (l : list A) : bool := match l with [] => true | _ => false end.
-
 (* the loop of parseLineBlock *)
 Fixpoint block_loop (f : nat) (lend : lex_end) (start : position) (btoks : list str)
-         (lparen : token) (coms : list comment) (lines : list line) (ts : list token)
+         (lparen : token) (coms_r : list comment) (lines_r : list line) (ts : list token)
   : pres line_block :=
   match f with
   | O => RFuel
   | S f' =>
       match peek ts with
       | KEOLComment =>
-          bind (advance lend ts) (fun _ ts1 => block_loop f' lend start btoks lparen coms lines ts1)
+          bind (advance lend ts) (fun _ ts1 => block_loop f' lend start btoks lparen coms_r lines_r ts1)
       | KComment =>
           bind (advance lend ts) (fun tok ts1 =>
             block_loop f' lend start btoks lparen
-                       (coms ++ [mkComment (t_pos tok) (t_text tok) false]) lines ts1)
+                       (mkComment (t_pos tok) (t_text tok) false :: coms_r) lines_r ts1)
       | KEOF => RErr (cur_pos ts) EUnterminatedBlock
       | KPunct c =>
           if c =? 10 then
             bind (advance lend ts) (fun _ ts1 =>
               let coms' :=
-                if (is_nil coms && negb (is_nil lines)) || (negb (is_nil coms) && last_token_nonempty coms)
-                then coms ++ [blank_comment] else coms in
-              block_loop f' lend start btoks lparen coms' lines ts1)
+                if (is_nil coms_r && negb (is_nil lines_r)) || (negb (is_nil coms_r) && last_token_nonempty coms_r)
+                then blank_comment :: coms_r else coms_r in
+              block_loop f' lend start btoks lparen coms' lines_r ts1)
           else if c =? 41 then
             bind (advance lend ts) (fun rparen ts1 =>
               if negb (is_eol (peek ts1)) then RErr (cur_pos ts1) EExpectedNewline
               else bind (advance lend ts1) (fun _ ts2 =>
-                ROk (mkBlock no_comments start (mkParen no_comments (t_pos lparen)) btoks lines
-                             (mkParen (set_before no_comments coms) (t_pos rparen))) ts2))
+                ROk (mkBlock no_comments start (mkParen no_comments (t_pos lparen)) btoks (frev lines_r)
+                             (mkParen (set_before no_comments (frev coms_r)) (t_pos rparen))) ts2))
           else
             bind (parse_line f' lend ts) (fun l ts1 =>
-              block_loop f' lend start btoks lparen [] (lines ++ [line_set_before l coms]) ts1)
+              block_loop f' lend start btoks lparen [] (line_set_before l (frev coms_r) :: lines_r) ts1)
       | _ =>
           bind (parse_line f' lend ts) (fun l ts1 =>
-            block_loop f' lend start btoks lparen [] (lines ++ [line_set_before l coms]) ts1)
+            block_loop f' lend start btoks lparen [] (line_set_before l (frev coms_r) :: lines_r) ts1)
       end
   end.
 
 (* the loop of parseStmt *)
-Fixpoint stmt_loop (f : nat) (lend : lex_end) (start endp : position) (tokens : list str)
+Fixpoint stmt_loop (f : nat) (lend : lex_end) (start endp : position) (tokens_r : list str)
          (ts : list token) : pres expr :=
   match f with
   | O => RFuel
   | S f' =>
       bind (advance lend ts) (fun tok ts1 =>
         if is_eol (t_kind tok) then
-          ROk (ELine (mkLine no_comments start tokens false endp)) ts1
+          ROk (ELine (mkLine no_comments start (frev tokens_r) false endp)) ts1
         else if is_kpunct (t_kind tok) 40 then
           let next := peek ts1 in
           if is_eol next then
-            bind (block_loop f' lend start tokens tok [] [] ts1) (fun b ts2 => ROk (EBlock b) ts2)
+            bind (block_loop f' lend start (frev tokens_r) tok [] [] ts1) (fun b ts2 => ROk (EBlock b) ts2)
           else if is_kpunct next 41 then
             bind (advance lend ts1) (fun rparen ts2 =>
               if is_eol (peek ts2) then
                 bind (advance lend ts2) (fun _ ts3 =>
-                  ROk (EBlock (mkBlock no_comments start (mkParen no_comments (t_pos tok)) tokens []
+                  ROk (EBlock (mkBlock no_comments start (mkParen no_comments (t_pos tok)) (frev tokens_r) []
                                        (mkParen no_comments (t_pos rparen)))) ts3)
-              else stmt_loop f' lend start endp (tokens ++ [t_text tok; t_text rparen]) ts2)
-          else stmt_loop f' lend start endp (tokens ++ [t_text tok]) ts1
-        else stmt_loop f' lend start (t_end tok) (tokens ++ [t_text tok]) ts1)
+              else stmt_loop f' lend start endp (t_text rparen :: t_text tok :: tokens_r) ts2)
+          else stmt_loop f' lend start endp (t_text tok :: tokens_r) ts1
+        else stmt_loop f' lend start (t_end tok) (t_text tok :: tokens_r) ts1)
   end.
 
 Definition parse_stmt (f : nat) (lend : lex_end) (ts : list token) : pres expr :=
@@ -175,40 +179,43 @@ Definition expr_set_comments (x : expr) (c : comments) : expr :=
   | ECommentBlock cb => ECommentBlock (mkCommentBlock c (cb_start cb))
   end.
 
-Definition cb_add_before (cb : comment_block) (c : comment) : comment_block :=
-  mkCommentBlock (set_before (cb_comments cb) (cm_before (cb_comments cb) ++ [c])) (cb_start cb).
+(* the pending comment block cb of parseFile: its Start and its Before list, reversed *)
+Definition pending_cb := option (position * list comment).
 
-Definition push_cb (cb : option comment_block) (stmts : list expr) : list expr :=
-  match cb with Some c => stmts ++ [ECommentBlock c] | None => stmts end.
+Definition cb_of (start : position) (before_r : list comment) : comment_block :=
+  mkCommentBlock (set_before no_comments (frev before_r)) start.
 
-(* parseFile; [stmts] is in.file.Stmt *)
-Fixpoint file_loop (f : nat) (lend : lex_end) (cb : option comment_block) (stmts : list expr)
+Definition push_cb (cb : pending_cb) (stmts_r : list expr) : list expr :=
+  match cb with Some (p, b) => ECommentBlock (cb_of p b) :: stmts_r | None => stmts_r end.
+
+(* parseFile; [stmts_r] is in.file.Stmt reversed *)
+Fixpoint file_loop (f : nat) (lend : lex_end) (cb : pending_cb) (stmts_r : list expr)
          (ts : list token) : pres (list expr) :=
   match f with
   | O => RFuel
   | S f' =>
       match peek ts with
-      | KEOF => ROk (push_cb cb stmts) ts
+      | KEOF => ROk (frev (push_cb cb stmts_r)) ts
       | KComment =>
           bind (advance lend ts) (fun tok ts1 =>
-            let cb0 := match cb with Some c => c | None => mkCommentBlock no_comments (t_pos tok) end in
-            file_loop f' lend (Some (cb_add_before cb0 (mkComment (t_pos tok) (t_text tok) false))) stmts ts1)
+            let c := mkComment (t_pos tok) (t_text tok) false in
+            let cb' := match cb with Some (p, b) => (p, c :: b) | None => (t_pos tok, [c]) end in
+            file_loop f' lend (Some cb') stmts_r ts1)
       | k =>
           if is_kpunct k 10 then
-            bind (advance lend ts) (fun _ ts1 => file_loop f' lend None (push_cb cb stmts) ts1)
+            bind (advance lend ts) (fun _ ts1 => file_loop f' lend None (push_cb cb stmts_r) ts1)
           else
             bind (parse_stmt f' lend ts) (fun s ts1 =>
-              let stmts1 := stmts ++ [s] in
+              let stmts1 := s :: stmts_r in
               match cb with
               | None => file_loop f' lend None stmts1 ts1
-              | Some c =>
+              | Some (_, b) =>
                   (* in.file.Stmt[len(in.file.Stmt)-1].Comment().Before = cb.Before *)
-                  match rev stmts1 with
+                  match stmts1 with
                   | [] => RPanic
                   | lst :: r =>
                       file_loop f' lend None
-                        (rev r ++ [expr_set_comments lst (set_before (expr_comments lst) (cm_before (cb_comments c)))])
-                        ts1
+                        (expr_set_comments lst (set_before (expr_comments lst) (frev b)) :: r) ts1
                   end
               end)
       end
@@ -254,11 +261,11 @@ Definition line_set_comments (l : line) (c : comments) : line :=
 Definition pre_line (l : line) (pending : list comment) : line * list comment :=
   let (c, p) := take_before (l_start l) (l_comments l) pending in (line_set_comments l c, p).
 
-Fixpoint pre_lines (ls : list line) (pending : list comment) : list line * list comment :=
+Fixpoint pre_lines (ls : list line) (pending : list comment) (acc : list line)
+  : list line * list comment :=
   match ls with
-  | [] => ([], pending)
-  | l :: r => let (l', p1) := pre_line l pending in
-              let (r', p2) := pre_lines r p1 in (l' :: r', p2)
+  | [] => (frev acc, pending)
+  | l :: r => let (l', p1) := pre_line l pending in pre_lines r p1 (l' :: acc)
   end.
 
 Definition pre_paren (x : paren) (pending : list comment) : paren * list comment :=
@@ -274,16 +281,16 @@ Definition pre_expr (x : expr) (pending : list comment) : expr * list comment :=
   | EBlock b =>
       let (c, p0) := take_before (b_start b) (b_comments b) pending in
       let (lp, p1) := pre_paren (b_lparen b) p0 in
-      let (ls, p2) := pre_lines (b_line b) p1 in
+      let (ls, p2) := pre_lines (b_line b) p1 [] in
       let (rp, p3) := pre_paren (b_rparen b) p2 in
       (EBlock (mkBlock c (b_start b) lp (b_token b) ls rp), p3)
   end.
 
-Fixpoint pre_stmts (l : list expr) (pending : list comment) : list expr * list comment :=
+Fixpoint pre_stmts (l : list expr) (pending : list comment) (acc : list expr)
+  : list expr * list comment :=
   match l with
-  | [] => ([], pending)
-  | x :: r => let (x', p1) := pre_expr x pending in
-              let (r', p2) := pre_stmts r p1 in (x' :: r', p2)
+  | [] => (frev acc, pending)
+  | x :: r => let (x', p1) := pre_expr x pending in pre_stmts r p1 (x' :: acc)
   end.
 
 (* Suffix comments (second loop, over in.post backwards).  [sr] is the list of pending
@@ -294,18 +301,18 @@ Definition take_suffix (sp : position * position) (c : comments) (sr : list comm
   : comments * list comment :=
   if p_line (fst sp) =? p_line (snd sp) then
     let (tk, rest) := span_by (fun x => p_byte (snd sp) <=? p_byte (c_start x)) sr in
-    (set_suffix c (rev (cm_suffix c ++ tk)), rest)
-  else (set_suffix c (rev (cm_suffix c)), sr).
+    (set_suffix c (frev (cm_suffix c ++ tk)), rest)
+  else (set_suffix c (frev (cm_suffix c)), sr).
 
 Definition post_line (l : line) (sr : list comment) : line * list comment :=
   let (c, s) := take_suffix (l_start l, l_end l) (l_comments l) sr in (line_set_comments l c, s).
 
-(* the last line first *)
-Fixpoint post_lines (ls : list line) (sr : list comment) : list line * list comment :=
-  match ls with
-  | [] => ([], sr)
-  | l :: r => let (r', s1) := post_lines r sr in
-              let (l', s2) := post_line l s1 in (l' :: r', s2)
+(* the last line first: [ls_r] is the list of lines reversed *)
+Fixpoint post_lines (ls_r : list line) (sr : list comment) (acc : list line)
+  : list line * list comment :=
+  match ls_r with
+  | [] => (acc, sr)
+  | l :: r => let (l', s1) := post_line l sr in post_lines r s1 (l' :: acc)
   end.
 
 Definition post_paren (x : paren) (sr : list comment) : paren * list comment :=
@@ -321,35 +328,41 @@ Definition post_expr (x : expr) (sr : list comment) : expr * list comment :=
   | EBlock b =>
       let (c, s0) := take_suffix (expr_span x) (b_comments b) sr in
       let (rp, s1) := post_paren (b_rparen b) s0 in
-      let (ls, s2) := post_lines (b_line b) s1 in
+      let (ls, s2) := post_lines (frev (b_line b)) s1 [] in
       let (lp, s3) := post_paren (b_lparen b) s2 in
       (EBlock (mkBlock c (b_start b) lp (b_token b) ls rp), s3)
   end.
 
-Fixpoint post_stmts (l : list expr) (sr : list comment) : list expr * list comment :=
+Fixpoint post_stmts (l_r : list expr) (sr : list comment) (acc : list expr)
+  : list expr * list comment :=
+  match l_r with
+  | [] => (acc, sr)
+  | x :: r => let (x', s1) := post_expr x sr in post_stmts r s1 (x' :: acc)
+  end.
+
+Fixpoint filter_r {A} (p : A -> bool) (l acc : list A) : list A :=
   match l with
-  | [] => ([], sr)
-  | x :: r => let (r', s1) := post_stmts r sr in
-              let (x', s2) := post_expr x s1 in (x' :: r', s2)
+  | [] => acc
+  | x :: r => filter_r p r (if p x then x :: acc else acc)
   end.
 
 (* assignComments; [coms] is in.comments *)
 Definition assign_comments (name : str) (stmts : list expr) (coms : list comment) : file_syntax :=
-  let linec := filter (fun c => negb (c_suffix c)) coms in
-  let suffix := filter c_suffix coms in
+  let linec := frev (filter_r (fun c => negb (c_suffix c)) coms []) in
+  let suffix := frev (filter_r c_suffix coms []) in
   let (fc, p0) := take_before (fst (file_span stmts)) no_comments linec in
-  let (stmts1, p1) := pre_stmts stmts p0 in
+  let (stmts1, p1) := pre_stmts stmts p0 [] in
   let fc1 := set_after fc (cm_after fc ++ p1) in
-  let (stmts2, s1) := post_stmts stmts1 (rev suffix) in
-  let fc2 := set_suffix fc1 (rev (cm_suffix fc1)) in
-  mkFile name (set_before fc2 (cm_before fc2 ++ rev s1)) stmts2.
+  let (stmts2, s1) := post_stmts (frev stmts1) (frev suffix) [] in
+  let fc2 := set_suffix fc1 (frev (cm_suffix fc1)) in
+  mkFile name (set_before fc2 (cm_before fc2 ++ frev s1)) stmts2.
 
 (* in.comments: every _EOLCOMMENT token, in order *)
 Definition comments_of (ts : list token) : list comment :=
-  flat_map (fun t => match t_kind t with
-                     | KEOLComment => [mkComment (t_pos t) (t_text t) true]
-                     | _ => []
-                     end) ts.
+  frev (fold_left (fun acc t => match t_kind t with
+                                | KEOLComment => mkComment (t_pos t) (t_text t) true :: acc
+                                | _ => acc
+                                end) ts []).
 
 Definition parse_fuel (ts : list token) : nat := (length ts + 2)%nat.
 
